@@ -72,7 +72,7 @@ impl SignatureConverter<'_> {
                 let input = sig.inputs.first_mut().unwrap();
                 let input_span = input.span();
                 match input {
-                    syn::FnArg::Typed(pat_type) => match pat_type.ty.as_ref() {
+                    syn::FnArg::Typed(pat_type) => match peel_type(pat_type.ty.as_ref()) {
                         syn::Type::Reference(type_reference) => {
                             let and_token = type_reference.and_token;
                             let lifetime = type_reference.lifetime.clone();
@@ -205,5 +205,14 @@ fn tidy_generics(generics: &mut syn::Generics) {
     if generics.params.is_empty() {
         generics.lt_token = None;
         generics.gt_token = None;
+    }
+}
+
+/// The type inside parentheses and invisible groups (`(&T)`, a `$t:ty` macro_rules fragment)
+fn peel_type(ty: &syn::Type) -> &syn::Type {
+    match ty {
+        syn::Type::Paren(paren) => peel_type(paren.elem.as_ref()),
+        syn::Type::Group(group) => peel_type(group.elem.as_ref()),
+        ty => ty,
     }
 }
